@@ -1,16 +1,20 @@
 import Uds.Lemmas.Py
 import Uds.Model.DecodeDtc
 /-
-  `Safe x`: the computation `x` can only fail with a documented outcome.  Combinators to prove it compositionally.
+  `Safe x`: the computation `x` can only fail with one of the documented outcomes an interpretation may end in (`PyErr.ofReply`: invalid / unexpected
+  response, configuration error, not implemented) - in particular never with a negative-response or timeout exception, which only `send_request` raises.  Combinators to prove it compositionally.
 -/
 namespace Uds
 open Uds.Model
 
-def Safe {α : Type} (x : Py α) : Prop := ∀ e, x = .error e → e.documented = true
+def Safe {α : Type} (x : Py α) : Prop := ∀ e, x = .error e → e.ofReply = true
+
+theorem Safe.documented {α : Type} {x : Py α} (h : Safe x) (e : PyErr) (he : x = .error e) : e.documented = true :=
+  PyErr.ofReply_documented (h e he)
 
 theorem Safe.pure {α : Type} (a : α) : Safe (pure a : Py α) := by intro e h; simp at h
 theorem Safe.ok {α : Type} (a : α) : Safe (.ok a : Py α) := by intro e h; cases h
-theorem Safe.throw {α : Type} (e : PyErr) (h : e.documented = true) : Safe (throw e : Py α) := by
+theorem Safe.throw {α : Type} (e : PyErr) (h : e.ofReply = true) : Safe (throw e : Py α) := by
   intro e' h'; simp at h'; subst h'; exact h
 
 theorem Safe.bind {α β : Type} {x : Py α} {f : α → Py β} (hx : Safe x) (hf : ∀ a, x = .ok a → Safe (f a)) : Safe (x >>= f) := by
@@ -31,7 +35,7 @@ theorem Safe.dite {α : Type} {c : Prop} [Decidable c] {x : c → Py α} {y : ¬
   · exact hx _
   · exact hy _
 
-theorem Safe.guard (c : Bool) (e : PyErr) (h : e.documented = true) : Safe (guardPy c e) := by
+theorem Safe.guard (c : Bool) (e : PyErr) (h : e.ofReply = true) : Safe (guardPy c e) := by
   unfold guardPy; cases c
   · exact Safe.pure ()
   · exact Safe.throw e h
